@@ -216,6 +216,10 @@ def c07_scope(l: int, r: int, al: int, p1: int, p2: int, x: int, y: int, z: int,
         sx = head + [macro, other, call2, call, stmt]
     else:
         sx = head + [other, macro, stmt, ["loop", 2, ["sequential_block", stmt, call]]]
+    # the names are concrete once selected; strip CrossHair's proxy wrappers so that the builder's memo table is a
+    # native dict (CrossHair's dict model compares keys by == only, and NamedQubit.__eq__ is a name-based heuristic
+    # that relies on differing hashes to keep a parameter's q[0] and a register's q[0] apart)
+    sx = concrete(sx)
     ref, why = try_ref(sx)
     try:
         c = build(sx)
